@@ -820,9 +820,19 @@ func runInterleave(r *vs.Rand, i int, seed uint64, out *vs.Out) {
 		if len(orphans) > 0 && r.Chance(35) {
 			// aimed at an adoption: the orphan is taken by the other parent, deleted, replaced or relabelled meanwhile
 			k = orphans[r.Intn(len(orphans))]
-			choice = []int{2, 2, 0, 1, 3}[r.Intn(5)]
+			choice = []int{2, 2, 0, 1, 3, 11}[r.Intn(6)]
 		}
 		switch choice {
+		case 11: // deleted and replaced under the same name by an object that does not match the parent's selector (new UID)
+			o := s.GetObj(k.c.group(), k.c.Resource, k.ns, k.name)
+			if o != nil {
+				s.Remove(k.c.group(), k.c.Resource, k.ns, k.name)
+				md := o["metadata"].(map[string]interface{})
+				delete(md, "uid")
+				delete(md, "ownerReferences")
+				md["labels"] = map[string]interface{}{"app": "nomatch"}
+				s.Put(k.c.group(), k.c.Resource, o)
+			}
 		case 10: // somebody else adds or removes a finalizer of their own on the parent
 			s.Mutate(parentGroup, cfg.parentResource(), nsOfKey(sc.key), "p1", func(o map[string]interface{}) {
 				md := o["metadata"].(map[string]interface{})
@@ -916,7 +926,8 @@ func runInterleave(r *vs.Rand, i int, seed uint64, out *vs.Out) {
 		if r.Chance(35) {
 			act(w.sim) // before the sync starts: a stale cache
 		} else {
-			w.sim.Env[r.Intn(10)] = act
+			// mostly early in the sync: between the live reads and the writes of the claim phase
+			w.sim.Env[[]int{0, 1, 1, 2, 2, 2, 3, 3, 4, 5, 6, 8}[r.Intn(12)]] = act
 		}
 	}
 	w.sim.ResetLog()
